@@ -11,7 +11,7 @@ pub enum SKey { Int(int), Uint(int), Bool(bool), Str(Seq<char>) }
 pub enum ErrClass {
     Unmodelled,
     InvalidArgumentCount, UnsupportedTargetType, NotSupportedAsMethod, UnsupportedKeyType, UnexpectedType,
-    NoSuchKey, Undeclared, MissingArgumentOrTarget, NotComparable, UnsupportedUnary, UnsupportedBinary,
+    NoSuchKey, Undeclared(Seq<char>), MissingArgumentOrTarget, NotComparable, UnsupportedUnary, UnsupportedBinary,
     UnsupportedMapIndex, UnsupportedListIndex, UnsupportedIndex, FunctionError, DivZero, RemZero, Overflow, Other,
 }
 pub type SRes = Result<SVal, ErrClass>;
@@ -61,7 +61,7 @@ pub open spec fn eclass(e: ExecutionError) -> ErrClass {
         ExecutionError::UnsupportedKeyType(_) => ErrClass::UnsupportedKeyType,
         ExecutionError::UnexpectedType { .. } => ErrClass::UnexpectedType,
         ExecutionError::NoSuchKey(_) => ErrClass::NoSuchKey,
-        ExecutionError::UndeclaredReference(_) => ErrClass::Undeclared,
+        ExecutionError::UndeclaredReference(n) => ErrClass::Undeclared(n@),   // the undeclared name is part of the observation (C19)
         ExecutionError::MissingArgumentOrTarget => ErrClass::MissingArgumentOrTarget,
         ExecutionError::ValuesNotComparable(_, _) => ErrClass::NotComparable,
         ExecutionError::UnsupportedUnaryOperator(_, _) => ErrClass::UnsupportedUnary,
